@@ -123,7 +123,6 @@ var boundsExceptions = []struct {
 	{"ucfg.parseVarExp", "pieces", "", "", 4, "st.st is only ever assigned the constants stLeft (0) and stRight (1) and indexes a [2]-array"},
 	{"ucfg.mergeConfigMergeArr", "array()", "index", "", 1, "to.fields.array() is re-read inside the loop after the recursive merge of element i; the loop bound l was taken from the same array and the iterations only replace elements in place (setAt with i < l) or merge below them, so its length cannot shrink; proving this needs reasoning about what the recursive merge may write"},
 	{"ucfg.lexer$1", "content", "", "off", 1, "(one site since the prover proves joins alternative by alternative: the final re-slice content[off:]) loop invariant off <= len(content) of the lexer: off is reset to 0 whenever content is re-sliced and only advanced to idx+1 / idx+2 after the tests len(content) <= off; needs an inductive invariant over two captured variables that the prover does not infer. Reads content[off] are NOT covered by this exception: each has a local end-of-input test that is proved"},
-	{"(diff.Type).String", "", "", "", 1, "dt is one of the three constants Remove/Add/Keep of the enum; a Type outside the enum can only be made by the caller"},
 	{"ucfg.reflectUnpackWithConfig", "Call()", "", "", 1, "reflect.Value.Call on a method whose signature was checked by implementsUnpacker to have exactly one result"},
 }
 
@@ -237,6 +236,8 @@ func checkC07(c *Ctx, r *Report) {
 	stringConvertRule(c, r)
 	mergeResultRule(c, r)
 	nilConfigArgRule(c, r)
+	ancestorRule(c, r)
+	zeroConfigRule(c, r)
 }
 
 // noGrowByResliceRule (R07k): a node's list ([]value) never grows by re-slicing into its spare
@@ -896,6 +897,25 @@ func assertGuarded(c *Ctx, ta *ssa.TypeAssert, errorT *types.Named) (bool, strin
 			}
 		}
 	}
+	// 4. the operand is what a statically resolved function returns, and every return of that function wraps a
+	// value of exactly the asserted type (cfgSub{…}.cpy(ctx).(cfgSub))
+	if call, ok := ta.X.(*ssa.Call); ok && !call.Call.IsInvoke() {
+		if f := call.Call.StaticCallee(); f != nil && len(f.Blocks) > 0 && f.Signature.Results().Len() == 1 {
+			all, n := true, 0
+			for _, b := range f.Blocks {
+				if ret, isRet := lastInstr(b).(*ssa.Return); isRet && len(ret.Results) == 1 {
+					n++
+					mi, isMI := ret.Results[0].(*ssa.MakeInterface)
+					if !isMI || !types.Identical(mi.X.Type(), ta.AssertedType) {
+						all = false
+					}
+				}
+			}
+			if all && n > 0 {
+				return true, "every return of " + f.Name() + " wraps a value of the asserted type"
+			}
+		}
+	}
 	return false, "no dominating test fixes the dynamic type of " + ta.X.Name()
 }
 
@@ -977,12 +997,124 @@ func reflectTypeFixed(ifc *ssa.Call, ta *ssa.TypeAssert) bool {
 						if g, ok := l.X.(*ssa.Global); ok {
 							for _, n := range names {
 								if g.Name() == n {
-									return true
+									// the type implements the interface — but a value of an interface type can hold nothing:
+									// Interface() of a nil interface value is the nil interface, and the assertion panics.
+									// Fine when the type asked is a pointer type made here (PtrTo: the value is pointerized),
+									// otherwise the value must be known not to be nil.
+									if implementsOnPtrTo(x) || notNilGuarded(ta) {
+										return true
+									}
 								}
 							}
 						}
 					}
 				}
+			}
+		}
+	}
+	return false
+}
+
+// implementsOnPtrTo: the receiver of t.Implements(I) is reflect.PtrTo(…) / reflect.PointerTo(…).
+func implementsOnPtrTo(call *ssa.Call) bool {
+	if !call.Call.IsInvoke() {
+		return false
+	}
+	for _, s := range append(Sources(call.Call.Value), call.Call.Value) {
+		if pc, ok := s.(*ssa.Call); ok && pc.Call.StaticCallee() != nil {
+			switch pc.Call.StaticCallee().String() {
+			case "reflect.PtrTo", "reflect.PointerTo":
+				return true
+			}
+		}
+	}
+	return false
+}
+
+// notNilGuarded: the reflect.Value whose Interface() is asserted is known not to be nil (a dominating IsNil() that
+// answered false on the same value), or its kind was tested to be something that cannot be a nil interface.
+func notNilGuarded(ta *ssa.TypeAssert) bool {
+	ic, ok := ta.X.(*ssa.Call)
+	if !ok || calledName(ic) != "Interface" || len(ic.Call.Args) != 1 {
+		return false
+	}
+	recv := ic.Call.Args[0]
+	// a dominating join that is entered only from tests: `if (k == Ptr || k == Interface) && v.IsNil() { return }` leaves
+	// through the false edge of IsNil, or through the false edges of the kind tests
+	for d := ta.Block(); d != nil; d = d.Idom() {
+		if len(d.Preds) < 2 {
+			continue
+		}
+		good, sawNil := true, false
+		for _, pr := range d.Preds {
+			ifi, isIf := lastInstr(pr).(*ssa.If)
+			if !isIf || len(pr.Succs) != 2 {
+				good = false
+				break
+			}
+			onFalse := pr.Succs[1] == d && pr.Succs[0] != d
+			switch x := ifi.Cond.(type) {
+			case *ssa.Call:
+				if calledName(x) == "IsNil" && len(x.Call.Args) == 1 && onFalse && (x.Call.Args[0] == recv || SameValue(x.Call.Args[0], recv) || sameSrc(x.Call.Args[0], recv)) {
+					sawNil = true
+				} else {
+					good = false
+				}
+			case *ssa.BinOp:
+				if !(strings.Contains(typeStr(x.X.Type()), "reflect.Kind") && x.Op == token.EQL && onFalse) {
+					good = false
+				}
+			default:
+				good = false
+			}
+		}
+		if good && sawNil {
+			return true
+		}
+	}
+	for _, cd := range ExpandConds(DomConds(ta.Block())) {
+		v, truth := cd.V, cd.Truth
+		for {
+			u, isU := v.(*ssa.UnOp)
+			if !isU || u.Op != token.NOT {
+				break
+			}
+			v, truth = u.X, !truth
+		}
+		isNilOfRecv := func(x ssa.Value) bool {
+			nc, ok := x.(*ssa.Call)
+			return ok && calledName(nc) == "IsNil" && len(nc.Call.Args) == 1 &&
+				(nc.Call.Args[0] == recv || SameValue(nc.Call.Args[0], recv) || sameSrc(nc.Call.Args[0], recv))
+		}
+		if isNilOfRecv(v) && !truth {
+			return true
+		}
+		// `(kind == Ptr || kind == Interface) && v.IsNil()` answered false: either the kind is none that can be nil,
+		// or the value is not nil
+		if phi, ok := v.(*ssa.Phi); ok && !truth {
+			good, sawNil := true, false
+			for i, e := range phi.Edges {
+				if cb, isC := ConstBool(e); isC && !cb {
+					// the way in on which the conjunction was cut short: a kind test
+					pr := phi.Block().Preds[i]
+					ifi, isIf := lastInstr(pr).(*ssa.If)
+					if !isIf {
+						good = false
+						continue
+					}
+					if bo, isB := ifi.Cond.(*ssa.BinOp); !isB || !(bo.Op == token.EQL || bo.Op == token.NEQ) || !strings.Contains(typeStr(bo.X.Type()), "reflect.Kind") {
+						good = false
+					}
+					continue
+				}
+				if isNilOfRecv(e) {
+					sawNil = true
+					continue
+				}
+				good = false
+			}
+			if good && sawNil {
+				return true
 			}
 		}
 	}
